@@ -14,7 +14,7 @@ pub static DEF: PropDef = PropDef {
     level: "exploration",
     total: |t| t.pick(576, 28800),
     run,
-    rule: "1..5 datagrams (1..20000 random bytes; keys differing in exactly one of source/destination/protocol/identification, or equal and sent back to back) cut by the harness's own RFC 791 cutter through chains of 1..3 MTUs >= 68, fragments interleaved by random shuffle (all permutations when <= 5 fragments), 0..3 duplicated fragments, optionally pieces of a second, different cut of the same datagram (overlap), expiry callbacks with fresh or stale epochs at random positions; every receive_packet result is compared with a block-coverage model. Non-trivial = >=2 interleaved datagrams AND out-of-order arrival AND (duplicate or expiry callback); distinct by scenario hash.",
+    rule: "1..5 datagrams (1..20000 random bytes, one in 13 larger, up to the largest legal datagram of 65515 payload octets; keys differing in exactly one of source/destination/protocol/identification, or equal and sent back to back) cut by the harness's own RFC 791 cutter through chains of 1..3 MTUs in 68..65535, fragments interleaved by random shuffle (all permutations when <= 5 fragments), 0..3 duplicated fragments, optionally pieces of a second, different cut of the same datagram (overlap), expiry callbacks with fresh or stale epochs at random positions; every receive_packet result is compared with a block-coverage model. Non-trivial = >=2 interleaved datagrams AND out-of-order arrival AND (duplicate or expiry callback); distinct by scenario hash.",
     assumptions: &[
         "fragments are produced by the harness's own cutter (so a defect in fragmentation.rs cannot mask or cause a reassembly verdict)",
         "completion is judged per RFC 791: all 8-octet blocks 0..ceil(TDL/8) received since the last completion/flush of that (src,dst,proto,id)",
@@ -156,17 +156,23 @@ fn scenario(env: &Env, d: &mut Delta, rng: &mut impl Rng, sample: bool) {
     let mut desc_dg = vec![];
     let use_overlap = rng.chance(1, 6);
     for (i, key) in keys.iter().enumerate() {
-        let len = match rng.gen_range(0..6) {
-            0 => rng.gen_range(1..=64),
-            1 => rng.gen_range(1..=20000),
-            2 => 8 * rng.gen_range(1..=200),
-            _ => rng.gen_range(1..=3000),
+        // one datagram in ~13 is large, up to the largest legal one (total length 65535 = 65515 payload octets)
+        let len = match rng.gen_range(0..40) {
+            0 => 65515,
+            1 => rng.gen_range(65400..=65515),
+            2 => rng.gen_range(20000..=65515),
+            x => match x % 6 {
+                0 => rng.gen_range(1..=64),
+                1 => rng.gen_range(1..=20000),
+                2 => 8 * rng.gen_range(1..=200),
+                _ => rng.gen_range(1..=3000),
+            },
         };
         let len = crate::cap(len);
         let payload = rng.bytes(len);
         let nm = rng.gen_range(1..=3);
         let mut mtus = vec![];
-        let mut hi = 4000usize.min(len + 19).max(68);
+        let mut hi = (if rng.chance(1, 4) { 65535usize } else { 4000 }).min(len + 19).max(68);
         for _ in 0..nm {
             let m = rng.gen_range(68..=hi);
             mtus.push(m);
